@@ -5,15 +5,43 @@
    (stream = stream.MetaData(md)), [EvParam cb site params].  The stream handed to the operator is the source with the
    [EvMeta] entries applied in order, i.e. upstream of the operator node (object_stream.py uses n_stream.query_ast).
 
-   Full statement over whole queries, NOT proved (checked by the correspondence and by the by-construction oracle of
-   harness/props/c09.py on every run):
-     callbacks_exact : follow W G e = Ok (e', t, ev) -> ev = callback_sites W G e
-       for a separately written traversal listing every call site that resolves to a class / method / function /
-       property with a callback, class callback before method callback, nothing else.
-   Proved: the local laws every call site goes through, for every class table, callback table and call site. *)
+   Whole queries (Proofs/TypeFollowSites.v, TypeFollowEmitted.v): [callbacks_exact] - the events are exactly those of
+   [callback_sites], a separately written traversal listing every resolved call site in evaluation order, class
+   callback before method callback, nothing else; [metadata_upstream] - through Select / SelectMany / Where the metadata
+   of every site, at whatever lambda depth, sits on the source chain upstream of the operator node, in firing order;
+   [rewrite_is_emitted] - the emitted tree contains, for every site, the call its last callback returned.
+   The local laws every call site goes through follow. *)
 From FA.Base Require Import PyAst Value.
 From FA.Model Require Import TypeDefs TypeFollow.
-From FA.Proofs Require Import TypeFollowFacts TypeFollowCallbacks TypeFollowUntyped.
+From FA.Proofs Require Import TypeFollowFacts TypeFollowCallbacks TypeFollowUntyped TypeFollowNormalised TypeFollowResolve
+     TypeFollowSites TypeFollowEmitted.
+
+(* every class table, function table, callback table, environment and expression *)
+Theorem callbacks_exact : forall (W : world) (G : tenv) (e e' : expr) (t : ty) (ev : list event),
+  follow W G e = Ok (e', t, ev) -> ev = callback_sites W G e.
+Proof. exact callbacks_exact_x. Qed.
+Print Assumptions callbacks_exact.
+
+(* [stream_query op src lam ev] is what the operator returns for a stream whose query is [src]: the operator node over
+   the source wrapped in one MetaData(...) per metadata event, and the followed lambda *)
+Theorem metadata_upstream : forall (W : world) op G0 item p b lam t ev src,
+  stream_op W op G0 item (Lambda [p] b) = Ok (lam, t, ev) ->
+  ev = callback_sites W ((p, item) :: G0) b /\
+  exists b', lam = Lambda [p] b' /\ follow W ((p, item) :: G0) b = Ok (b', type_of W ((p, item) :: G0) b, ev) /\
+    stream_query op src lam ev =
+      Call (Name (op_name op)) [with_metadata src (metas (callback_sites W ((p, item) :: G0) b)); Lambda [p] b'] [] [] /\
+    (is_metadata_call src = false ->
+     peel (with_metadata src (metas ev)) = (src, metas (callback_sites W ((p, item) :: G0) b))).
+Proof. exact metadata_upstream_x. Qed.
+Print Assumptions metadata_upstream.
+
+(* for every call site of the traversal (record = its events and the call its last callback returned), that call is
+   in the emitted tree; [kw_wf]: calls have as many keyword names as values, as Python's parser produces *)
+Theorem rewrite_is_emitted : forall (W : world) (G : tenv) (e e' : expr) (t : ty) (ev : list event),
+  kw_wf e -> follow W G e = Ok (e', t, ev) ->
+  Forall (fun r : site_rec => within (eq (snd r)) e') (call_sites W G e).
+Proof. exact rewrite_is_emitted_x. Qed.
+Print Assumptions rewrite_is_emitted.
 
 (* class-level callback before method-level callback; the second sees what the first returned; the emitted call
    site is the last rewrite; each callback's metadata directly follows its invocation *)
@@ -91,3 +119,17 @@ Example depth1_callbacks :
         TIter TFloat,
         [EvCall "jetcls" jpt; EvMeta (md "c"); EvCall "jetpt" jpt; EvMeta (md "m")]).
 Proof. vm_compute. reflexivity. Qed.
+
+(* the traversal, computed independently of the follower's own event list, on the depth-1 query above: the class
+   callback on the written site, then the method callback; the record's second component is the emitted call *)
+Example depth1_traversal :
+  let jpt := Call (Attr (Name "j") "pt") [] [] [] in
+  let q := Call (Attr (Call (Attr (Name "e") "Jets") [] [] []) "Select") [Lambda ["j"] jpt] [] [] in
+  call_sites W3 [("e", TCls "Event" [])] q =
+    [ ([], Call (Attr (Name "e") "Jets") [] [] []);
+      ([EvCall "jetcls" jpt; EvMeta (md "c"); EvCall "jetpt" jpt; EvMeta (md "m")], Call (Attr (Name "j") "pt_new") [] [] []);
+      ([], Call (Attr (Call (Attr (Name "e") "Jets") [] [] []) "Select")
+                [Lambda ["j"] (Call (Attr (Name "j") "pt_new") [] [] [])] [] []) ] /\
+  stream_query OpSelect (Name "ds") (Lambda ["e"] q) (callback_sites W3 [("e", TCls "Event" [])] q) =
+    Call (Name "Select") [Call (Name "MetaData") [Call (Name "MetaData") [Name "ds"; md "c"] [] []; md "m"] [] []; Lambda ["e"] q] [] [].
+Proof. split; vm_compute; reflexivity. Qed.
